@@ -84,6 +84,11 @@ func Analyze(fn *ssa.Function, root *RootInfo) []Site {
 			var sl ssa.Value
 			need := -1
 			what := ""
+			if slx, ok := ins.(*ssa.Slice); ok {
+				if rs, ok := fi.reversedBounds(slx, b); ok {
+					sites = append(sites, rs)
+				}
+			}
 			switch x := ins.(type) {
 			case *ssa.IndexAddr:
 				if _, ok := x.X.Type().Underlying().(*types.Slice); ok {
@@ -1590,4 +1595,78 @@ func guardsOnStep(step ssa.Value, b *ssa.BasicBlock) (wrapped, wide bool) {
 		}
 	}
 	return wrapped, wide
+}
+
+// reversedBounds: x[L:h] with a constant L > 0 and a non-constant h that a
+// dominating *ordering* test bounds from below by less than L (the function
+// itself decided which h are too small, and let some through that are below
+// the slice's low bound).
+func (fi *fnInfo) reversedBounds(slx *ssa.Slice, b *ssa.BasicBlock) (Site, bool) {
+	if slx.Low == nil || slx.High == nil {
+		return Site{}, false
+	}
+	lo, isK := constInt(slx.Low)
+	if !isK || lo <= 0 {
+		return Site{}, false
+	}
+	if _, hk := constInt(slx.High); hk {
+		return Site{}, false
+	}
+	h := stripConv(slx.High)
+	best, found := -1<<40, false
+	for x := b; x != nil; x = x.Idom() {
+		if len(x.Preds) != 1 {
+			continue
+		}
+		p := x.Preds[0]
+		iff, ok := p.Instrs[len(p.Instrs)-1].(*ssa.If)
+		if !ok {
+			continue
+		}
+		c, ok := iff.Cond.(*ssa.BinOp)
+		if !ok {
+			continue
+		}
+		truth := p.Succs[0] == x
+		op := c.Op
+		var kv int
+		switch {
+		case stripConv(c.X) == h:
+			k, ok := constInt(c.Y)
+			if !ok {
+				continue
+			}
+			kv = k
+		case stripConv(c.Y) == h:
+			k, ok := constInt(c.X)
+			if !ok {
+				continue
+			}
+			kv = k
+			op = flip(op)
+		default:
+			continue
+		}
+		if !truth {
+			op = negate(op)
+		}
+		switch op {
+		case token.GEQ:
+			found = true
+			if kv > best {
+				best = kv
+			}
+		case token.GTR:
+			found = true
+			if kv+1 > best {
+				best = kv + 1
+			}
+		}
+	}
+	if !found || best >= lo || best < 0 {
+		return Site{}, false
+	}
+	s := Site{Fn: fi.fn, Ins: slx, Slice: slx.X, Need: lo, Have: best, What: fmt.Sprintf("[%d:h] (low bound %d)", lo, lo), Class: "DEF", Belief: true, Root: chainOf(slx.X).root}
+	s.Why = fmt.Sprintf("the function tests the high bound against a lower limit of %d, but the slice starts at %d: for a high bound of %d the slice expression has its bounds reversed and panics", best, lo, best)
+	return s, true
 }
